@@ -3,12 +3,13 @@ from ._stream import make
 
 PROPERTY = 'C07'
 TIERS = {'quick': {'runs': 10000, 'group': 200}, 'thorough': {'runs': 200000, 'group': 1000}}
-RULE = ('Each run delivers a text through the reader seam and parses it strictly and tolerantly. '
-        '45% of runs are recovery runs: a document of the restricted sub-grammar (no math, verbatim, '
-        'list regions; every bracket an argument delimiter) that parses and round-trips intact, with '
-        'exactly one LOSS of a real closer token or one EOF while a construct is open; the rest are '
-        'documents with 0-3 faults, corpus excerpts and alphabet strings. Non-trivial: a fault fired or '
-        'alphabet string; distinct by digest of (delivered text, skip_envs).')
+RULE = ('Each run delivers a text through the reader seam and parses it strictly and tolerantly. 45% are recovery runs: a '
+        'document of the restricted sub-grammar (no math, verbatim, list regions; every bracket an argument delimiter) '
+        'that parses and round-trips intact, tried with several alternative single faults (quick 3, thorough up to 16): '
+        'LOSS of one real, non-absorbable closer token or EOF while a construct is open. The rest are documents with 0-3 '
+        'faults, deep nestings, repeated units, corpus excerpts, alphabet strings and (every 8th run) stratified '
+        'end-of-input pairs. Non-trivial: a fault fired or an alphabet/repeat/tail run; distinct by digest of (delivered '
+        'text, skip_envs).')
 setup, teardown, gen, run, minimize, sample = make(PROPERTY)
 
 
